@@ -14,6 +14,10 @@ var (
 
 // Eval runs the expression in the environment
 func Eval(n Node, env *Environment) Object {
+	if n == nil {
+		return newError("syntax error; empty expression")
+	}
+
 	switch node := n.(type) {
 	case *ConditionalExpression:
 		return evalConditional(node, env)
@@ -38,6 +42,10 @@ func Eval(n Node, env *Environment) Object {
 
 // EvalUpdate runs the update expression in the environment
 func EvalUpdate(n Node, env *Environment) Object {
+	if n == nil {
+		return newError("syntax error; empty expression")
+	}
+
 	switch node := n.(type) {
 	case *UpdateStatement:
 		ue, ok := node.Expression.(*UpdateExpression)
